@@ -10,11 +10,12 @@ import ecc_file_x as fx
 import ecc_scen as es
 import ecc_util as eu
 
-LEAN_MODULES = ["Pff.Props.C04"]
+LEAN_MODULES = ["Pff.Props.C04", "Pff.Props.RunB"]
 PROP_MODULE = "Pff.Props.C04"
 THEOREMS = ["Pff.Ecc.C04_truncated_ecc_needs_hash", "Pff.Ecc.C04_block", "Pff.Ecc.C04_intact_untouched", "Pff.Ecc.C04_failed_copied", "Pff.Ecc.C04_length_header",
             "Pff.Ecc.C04_length_whole", "Pff.Ecc.C04_blockwise_header", "Pff.Ecc.C04_blockwise_whole", "Pff.Ecc.C04_failed_not_complete",
-            "Pff.Ecc.C04_exit", "Pff.Ecc.C04_results_wf"]
+            "Pff.Ecc.C04_exit", "Pff.Ecc.C04_results_wf",
+            "Pff.Run.C13_run_output_length"]
 MODELLED = [("pyFileFixity/header_ecc.py", "main"), ("pyFileFixity/header_ecc.py", "entry_assemble"),
             ("pyFileFixity/structural_adaptive_ecc.py", "main"), ("pyFileFixity/structural_adaptive_ecc.py", "stream_entry_assemble")]
 TRUSTED_BASE = [
@@ -157,7 +158,7 @@ def gen_scenario(rng, tier):
 
 def run(oc, tier, seed, model_available, escalate):
     rng = random.Random(seed * 553105243 + 4)
-    n = 30 if tier == "quick" else 700
+    n = 100 if tier == "quick" else 2500
     if escalate:
         n *= 2
     d = os.path.join(common.scratch(), "c04")
